@@ -56,3 +56,10 @@ om_, eb = R('omega'), R('eblast')
 add('sedov.sedov:Sedov', {'geometry': g, 'gamma': gamma, 'rho0': rho0, 'omega': om_, 'eblast': eb},
     sp.And(member(g, (1, 2, 3)), gamma > 1, rho0 > 0, eb > 0, om_ >= 0, om_ < g),
     "error messages: 'gamma must be greater than 1', 'density must be greater than 0', 'eblast must be greater than 0', 'omega must be between 0 and geometry' (property: 0 <= omega < geometry)", finite={g: (1, 2, 3, 0, 4)})
+
+# ExplosiveArc (DSD): restrictions as in the error messages of its constructor
+_r1, _r2, _oi, _oo, _xd, _DCJ, _al, _tf = R('r_1'), R('r_2'), R('omega_in'), R('omega_out'), R('x_d'), R('D_CJ'), R('alpha'), R('t_f')
+_xn, _yn = I('xnodes'), I('ynodes')
+add('dsd.explosivearc:ExplosiveArc', {'geometry': g, 'r_1': _r1, 'r_2': _r2, 'omega_in': _oi, 'omega_out': _oo, 'x_d': _xd, 'D_CJ': _DCJ, 'alpha': _al, 't_f': _tf, 'xnodes': _xn, 'ynodes': _yn},
+    sp.And(member(g, (1,)), _r1 > 0, _r2 > _r1, _oi > 0, _oi < sp.pi / 2, _oo >= _oi, _oo <= sp.pi / 2, _xd < 0, _DCJ > 0, _al >= 0, _tf > 0, _xn > 0, _yn > 0),
+    'planar only; 0 < r_1 < r_2; 0 < omega_in < pi/2; omega_in <= omega_out <= pi/2; detonator at x_d < 0; D_CJ > 0; alpha >= 0; t_f > 0; node counts positive', finite={g: (1, 2, 3)})
